@@ -496,6 +496,7 @@ def constant_setattr(f):
   """setattr(obj, 'name', v) -> obj.name = v ;  getattr(obj, 'name') -> obj.name   (constant names only)."""
   node = f.node
   changed = [False]
+  fresh_ = [0]
 
   def expr(e):
     if isinstance(e, ast.Call) and isinstance(e.func, ast.Name) and e.func.id == 'getattr' and len(e.args) == 2 and not e.keywords \
@@ -506,6 +507,31 @@ def constant_setattr(f):
         and e.func.attr in _OPERATOR_CMP and len(e.args) == 2 and not e.keywords:
       changed[0] = True
       return ast.Compare(left=expr(e.args[0]), ops=[_OPERATOR_CMP[e.func.attr]()], comparators=[expr(e.args[1])])
+    # functional spellings of comprehensions: filter(P, X), map(F, X), list/set(<generator>), S.__contains__(a)
+    if isinstance(e, ast.Call) and isinstance(e.func, ast.Name) and e.func.id in ('filter', 'map') and len(e.args) == 2 and not e.keywords \
+        and not any(isinstance(a, ast.Starred) for a in e.args):
+      fresh_[0] += 1
+      v = '_v%d' % fresh_[0]
+      fn_, it_ = e.args
+      if e.func.id == 'filter':
+        cond = ast.Name(id=v, ctx=ast.Load()) if (isinstance(fn_, ast.Constant) and fn_.value is None) else ast.Call(func=fn_, args=[ast.Name(id=v, ctx=ast.Load())], keywords=[])
+        new_ = ast.GeneratorExp(elt=ast.Name(id=v, ctx=ast.Load()), generators=[ast.comprehension(target=ast.Name(id=v, ctx=ast.Store()), iter=it_, ifs=[cond], is_async=0)])
+      else:
+        new_ = ast.GeneratorExp(elt=ast.Call(func=fn_, args=[ast.Name(id=v, ctx=ast.Load())], keywords=[]),
+                                generators=[ast.comprehension(target=ast.Name(id=v, ctx=ast.Store()), iter=it_, ifs=[], is_async=0)])
+      changed[0] = True
+      return expr(ast.copy_location(new_, e))
+    if isinstance(e, ast.Call) and isinstance(e.func, ast.Name) and e.func.id in ('list', 'set') and len(e.args) == 1 and not e.keywords \
+        and (isinstance(e.args[0], ast.GeneratorExp) or (isinstance(e.args[0], ast.Call) and isinstance(e.args[0].func, ast.Name) and e.args[0].func.id in ('filter', 'map'))):
+      ge_ = expr(e.args[0])
+      e.args[0] = ge_
+      if isinstance(ge_, ast.GeneratorExp):
+        changed[0] = True
+        cls_ = ast.ListComp if e.func.id == 'list' else ast.SetComp
+        return ast.copy_location(cls_(elt=ge_.elt, generators=ge_.generators), e)
+    if isinstance(e, ast.Call) and isinstance(e.func, ast.Attribute) and e.func.attr == '__contains__' and len(e.args) == 1 and not e.keywords:
+      changed[0] = True
+      return ast.copy_location(ast.Compare(left=expr(e.args[0]), ops=[ast.In()], comparators=[expr(e.func.value)]), e)
     # (lambda: X)()  is X ;  (lambda a: F(a))(v) is F(v) for a single use of a
     if isinstance(e, ast.Call) and isinstance(e.func, ast.Lambda) and not e.keywords and not any(isinstance(a, ast.Starred) for a in e.args) \
         and len(e.func.args.args) == len(e.args) and not e.func.args.vararg and not e.func.args.kwarg and not e.func.args.kwonlyargs:
@@ -606,6 +632,8 @@ def lower_repo(repo):
     c4 = constant_setattr(f)
     c5 = thread_result_tests(f) if q in getattr(repo, 'flattened', {}) else False
     c6 = propagate_attribute_aliases(f)
+    if c6:
+      c4 = constant_setattr(f) or c4        # aliases of bound methods / operator functions are visible only now
     c7 = split_parallel_assignments(f)
     c1 = c1 or c5 or bool(c6) or c7
     if c1 or c2 or c3 or c4:
